@@ -8,9 +8,15 @@
                   configuration of the run (or none)
      top/repo-b   sibling repository whose name has the prefix "repo" (a.yml), constant config CfgB
      top/other    unrelated directory: x.yml (outside every repository), the -config-file target
-   Every workflow file has the same N diagnostics; message ids 1..N are in unfiltered output order.
-   A pattern is the set of message ids it matches (the harness renders it as an alternation of
-   regexp.QuoteMeta(fragment), DESIGN 5.22).
+   Ordinary workflow files have the same N diagnostics, message ids 1..N in unfiltered output order;
+   y.yml is not YAML (its only diagnostic, id N+1, is the syntax error: nothing is visited), p.yml has
+   diagnostics of the workflow parser only (ids N+2, N+3).
+   A pattern is a record [f, s, k].  f = "set": matches exactly the message ids in s (the harness renders
+   it as an alternation of regexp.QuoteMeta(fragment), DESIGN 5.22).  The other forms concern message k:
+     "icase"     (?i)FRAGMENT-IN-WRONG-CASE      matches {k}        "start"  ^FRAGMENT      matches {k}
+     "wrongcase" FRAGMENT-IN-WRONG-CASE          matches nothing    "end"    TAIL$          matches {k}
+                                                                    "full"   ^MESSAGE$      matches {k}
+   Whether a pattern matches a message never depends on the other patterns of the list or their order.
 
    Declarative layer : Attribute / RootRel / Applicable / DeclOut / DeclExits - what C15 demands:
                        a `paths` glob is matched against the path relative to the root of the
@@ -24,8 +30,9 @@
    (declarative) + the operational prediction + what the two disabled deviations would print. *)
 EXTENDS Naturals, Sequences, FiniteSets, TLC, Json
 
-CONSTANTS N,          \* number of diagnostics per workflow file
-          CliPats,    \* patterns usable on the command line (sets of message ids)
+CONSTANTS N,          \* number of diagnostics per ordinary workflow file
+          CliPats,    \* "set" patterns usable on the command line (sets of message ids)
+          CliForms, CfgForms, FormIds,   \* other pattern forms to try on the command line / in a paths entry, for which ids
           MaxCli,     \* max number of -ignore flags
           CfgPats,    \* patterns usable in a `paths` entry
           GlobNames,  \* names of glob forms (keys of Globs) to try
@@ -35,6 +42,12 @@ CONSTANTS N,          \* number of diagnostics per workflow file
 Range(f) == {f[x] : x \in DOMAIN f}
 Ids == 1 .. N
 AllIds == [i \in Ids |-> i]
+P(ids) == [f |-> "set", s |-> ids, k |-> 0]
+Form(fm, id) == [f |-> fm, s |-> {}, k |-> id]
+\* the abstract relation "pattern p matches message d"
+Matches(p, d) == CASE p.f = "set" -> d \in p.s
+                   [] p.f = "wrongcase" -> FALSE
+                   [] OTHER -> d = p.k          \* icase, start, end, full
 
 ----------------------------------------------------------------------------
 (* File system *)
@@ -49,12 +62,16 @@ FA == RepoA \o WF \o <<"a.yml">>
 FS == RepoA \o WF \o <<"sub", "b.yml">>
 FB == RepoB \o WF \o <<"a.yml">>
 FO == Other \o <<"x.yml">>
+FY == RepoA \o WF \o <<"y.yml">>              \* not YAML
+FP == RepoA \o WF \o <<"p.yml">>              \* parser diagnostics only
 FM == RepoA \o WF \o <<"missing.yml">>        \* does not exist
 FD == RepoA \o WF \o <<"sub">>                \* a directory
-Readable == {FA, FS, FB, FO}
-YmlNames == {"a.yml", "b.yml", "x.yml", "missing.yml"}
+Readable == {FA, FS, FB, FO, FY, FP}
+YmlNames == {"a.yml", "b.yml", "x.yml", "missing.yml", "y.yml", "p.yml"}
+\* the unfiltered diagnostics of a file
+MsgsOf(f) == IF f = FY THEN <<N + 1>> ELSE IF f = FP THEN <<N + 2, N + 3>> ELSE AllIds
 \* the workflow files of a repository in the order LintDir visits them (sorted)
-WorkflowFiles(r) == IF r = RepoA THEN <<FA, FS>> ELSE IF r = RepoB THEN <<FB>> ELSE <<>>
+WorkflowFiles(r) == IF r = RepoA THEN <<FA, FP, FS, FY>> ELSE IF r = RepoB THEN <<FB>> ELSE <<>>
 \* directory names d1, d2 with d1 a proper string prefix of d2 (TLC has no string prefix test)
 NamePrefix == {<<"repo", "repo-b">>}
 
@@ -62,7 +79,7 @@ CwdOf == [root |-> RepoA, parent |-> Top, nested |-> RepoA \o <<".github">>, unr
           workflows |-> RepoA \o WF, rootb |-> RepoB]
 ArgLists == [a |-> <<FA>>, s |-> <<FS>>, b |-> <<FB>>, o |-> <<FO>>, as |-> <<FA, FS>>, ab |-> <<FA, FB>>,
              ba |-> <<FB, FA>>, sa |-> <<FS, FA>>, none |-> <<>>, m |-> <<FM>>, am |-> <<FA, FM>>, d |-> <<FD>>,
-             ao |-> <<FA, FO>>]
+             ao |-> <<FA, FO>>, y |-> <<FY>>, p |-> <<FP>>, ay |-> <<FA, FY>>, ya |-> <<FY, FA>>]
 
 IsPrefix(p, q) == Len(p) <= Len(q) /\ SubSeq(q, 1, Len(p)) = p
 RECURSIVE Common(_, _)
@@ -125,7 +142,7 @@ GMatch(g, p) ==
 (* Configurations: [k |-> "none" | "paths" | "badyaml" | "badregex" | "badglob", src |-> "repo" | "flag",
                     entries |-> sequence of [glob |-> name, pats |-> sequence of patterns]] *)
 NoCfg == [k |-> "none", src |-> "repo", entries |-> <<>>]
-CfgB == [k |-> "paths", src |-> "repo", entries |-> <<[glob |-> "exact", pats |-> <<{N}>>]>>]
+CfgB == [k |-> "paths", src |-> "repo", entries |-> <<[glob |-> "exact", pats |-> <<P({N})>>]>>]
 CfgBroken(c) == c.k \in {"badyaml", "badregex", "badglob"}
 
 (* A run: [cwdk, sp, argn, cli (sequence of patterns), cfg, ff (flag fault)] *)
@@ -147,8 +164,8 @@ Named(run) == IF RepoMode(run) THEN WorkflowFiles(Attribute(Cwd(run)))
 EntryPats(c, rel) == UNION {Range(c.entries[i].pats) :
                               i \in {j \in DOMAIN c.entries : GMatch(Globs[c.entries[j].glob], rel)}}
 Applicable(run, f) == Range(run.cli) \cup EntryPats(CfgFor(run, Attribute(f)), RootRel(f))
-FilterBy(ds, pats) == SelectSeq(ds, LAMBDA d : ~\E p \in pats : d \in p)
-DeclOut(run, f) == FilterBy(AllIds, Applicable(run, f))
+FilterBy(ds, pats) == SelectSeq(ds, LAMBDA d : ~\E p \in pats : Matches(p, d))
+DeclOut(run, f) == FilterBy(MsgsOf(f), Applicable(run, f))
 
 Fatal(run) ==
   \/ run.cfg.src = "flag" /\ CfgBroken(run.cfg)
@@ -194,7 +211,7 @@ OpCfgPath(run, i, root) ==
   LET f == Named(run)[i] IN
   IF root # NoRepo /\ IsPrefix(root, f) THEN SubSeq(f, Len(root) + 1, Len(f)) ELSE OpDisplay(run, i)
 OpOutWith(run, i, root, cpath) ==
-  FilterBy(AllIds, Range(run.cli) \cup EntryPats(CfgFor(run, root), cpath))
+  FilterBy(MsgsOf(Named(run)[i]), Range(run.cli) \cup EntryPats(CfgFor(run, root), cpath))
 OpOut(run, i) == OpOutWith(run, i, OpAttr(run)[i], OpCfgPath(run, i, OpAttr(run)[i]))
 OpRemaining(run) == \E i \in DOMAIN Named(run) : OpOut(run, i) # <<>>
 OpExits(run) == CASE run.ff \in {"unknown", "badbool"} -> {2}
@@ -222,6 +239,7 @@ VARIABLES run, stage, tc
 vars == <<run, stage, tc>>
 
 FileName(f) == CASE f = FA -> "a" [] f = FS -> "s" [] f = FB -> "b" [] f = FO -> "o" [] f = FM -> "m" [] f = FD -> "d"
+                  [] f = FY -> "y" [] f = FP -> "p"
 CfgJson(c) == [k |-> c.k, src |-> c.src,
                entries |-> [i \in DOMAIN c.entries |->
                               [glob |-> c.entries[i].glob, text |-> GlobText(Globs[c.entries[i].glob]),
@@ -234,7 +252,7 @@ Vector(r, st) ==
           args |-> Args(r), cli |-> r.cli, cfg |-> CfgJson(r.cfg), cfgb |-> CfgJson(CfgB), ff |-> r.ff,
           lint |-> lint, exits |-> DeclExits(r), opexits |-> OpExits(r),
           files |-> IF lint THEN [i \in DOMAIN fs |->
-                       [name |-> FileName(fs[i]), path |-> fs[i], exp |-> DeclOut(r, fs[i]), op |-> OpOut(r, i),
+                       [name |-> FileName(fs[i]), path |-> fs[i], all |-> MsgsOf(fs[i]), exp |-> DeclOut(r, fs[i]), op |-> OpOut(r, i),
                         devcwd |-> DevCwdOut(r, i), devpre |-> DevPreOut(r, i),
                         tags |-> Tags(r, i), rootrel |-> RootRel(fs[i]), display |-> OpDisplay(r, i)]]
                     ELSE <<>>])
@@ -268,20 +286,25 @@ AddEntry == /\ stage = "entries"
             /\ Len(run.cfg.entries) < MaxEntries
             /\ \E g \in GlobNames, p \in CfgPats :
                  /\ \A i \in DOMAIN run.cfg.entries : GlobIdx(run.cfg.entries[i].glob) < GlobIdx(g)
-                 /\ run' = [run EXCEPT !.cfg.entries = Append(@, [glob |-> g, pats |-> <<p>>])]
+                 /\ run' = [run EXCEPT !.cfg.entries = Append(@, [glob |-> g, pats |-> <<P(p)>>])]
             /\ stage' = "entries"
-\* one entry with two patterns
-AddEntry2 == /\ stage = "entries" /\ run.cfg.entries = <<>> /\ Cardinality(CfgPats) >= 2
-             /\ \E g \in GlobNames : \E p1, p2 \in CfgPats :
-                  /\ p1 # p2 /\ p1 # {} /\ p2 # {} /\ p1 # Ids /\ p2 # Ids /\ g \in {"exact", "deepext"}
-                  /\ \A d \in p1 : \A e \in p2 : d < e
+\* one entry with two patterns (both orders when a non-"set" form is involved: a pattern must not
+\* influence how its neighbours match)
+CfgUniverse == {P(q) : q \in CfgPats} \cup {Form(fm, id) : fm \in CfgForms, id \in FormIds}
+AddEntry2 == /\ stage = "entries" /\ run.cfg.entries = <<>>
+             /\ \E g \in GlobNames : \E p1, p2 \in CfgUniverse :
+                  /\ p1 # p2 /\ g \in {"exact", "deepext"}
+                  /\ (p1.f = "set" /\ p2.f = "set") =>
+                       /\ p1.s # {} /\ p2.s # {} /\ p1.s # Ids /\ p2.s # Ids
+                       /\ \A d \in p1.s : \A e \in p2.s : d < e
                   /\ run' = [run EXCEPT !.cfg.entries = <<[glob |-> g, pats |-> <<p1, p2>>]>>]
              /\ stage' = "cli"
 EndEntries == /\ stage = "entries" /\ run.cfg.entries # <<>>
               /\ run' = run /\ stage' = "cli"
+CliUniverse == {P(q) : q \in CliPats} \cup {Form(fm, id) : fm \in CliForms, id \in FormIds}
 AddCli == /\ stage = "cli"
           /\ Len(run.cli) < MaxCli
-          /\ \E p \in CliPats : p \notin Range(run.cli) /\ run' = [run EXCEPT !.cli = Append(@, p)]
+          /\ \E p \in CliUniverse : p \notin Range(run.cli) /\ run' = [run EXCEPT !.cli = Append(@, p)]
           /\ stage' = "cli"
 EndCli == /\ stage = "cli" /\ run' = run /\ stage' = "done"
 
@@ -297,14 +320,14 @@ ExactFilter ==
   \A i \in DOMAIN Named(run) :
     LET f == Named(run)[i] o == DeclOut(run, f) IN
     /\ Increasing(o)
-    /\ Range(o) = {d \in Ids : \A p \in Applicable(run, f) : d \notin p}
+    /\ Range(o) = {d \in Range(MsgsOf(f)) : \A p \in Applicable(run, f) : ~Matches(p, d)}
 \* CLI and config patterns compose: filtering by the union = filtering by one, then by the other
 Composes ==
   \A i \in DOMAIN Named(run) :
     LET f == Named(run)[i]
         cfgp == EntryPats(CfgFor(run, Attribute(f)), RootRel(f)) IN
-    /\ DeclOut(run, f) = FilterBy(FilterBy(AllIds, Range(run.cli)), cfgp)
-    /\ DeclOut(run, f) = FilterBy(FilterBy(AllIds, cfgp), Range(run.cli))
+    /\ DeclOut(run, f) = FilterBy(FilterBy(MsgsOf(f), Range(run.cli)), cfgp)
+    /\ DeclOut(run, f) = FilterBy(FilterBy(MsgsOf(f), cfgp), Range(run.cli))
 \* spelled arguments name the intended files
 SpellResolves ==
   stage = "cwd" =>
